@@ -312,7 +312,7 @@ def run(ctx):
             "metrics; expansion template of genhkl_all; conjugacy of the seven R settings." % (Nbox, len(jobs), total_pts))
 
 
-def analyse_expand(ctx, mod, short):
+def analyse_expand(ctx, mod, short, pid="C05"):
     """genhkl_all: structural patterns with metavariables (local names are free)"""
     fn = mod.func("genhkl_all")
     where = core.loc(mod, fn)
@@ -323,7 +323,7 @@ def analyse_expand(ctx, mod, short):
     kws = sorted(tuple(sorted((k.arg, core.unparse(k.value)) for k in c.value.keywords)) for c in sgc)
     okg = kws == [(("cell_choice", "cell_choice"), ("sgname", "sgname")), (("cell_choice", "cell_choice"), ("sgno", "sgno"))] \
         and len({c.targets[0].id for c in sgc}) == 1
-    ctx.check(okg, "C05:expand:%s.group" % short, "the group is not sg.sg(sgname=.., cell_choice=..) / sg.sg(sgno=.., cell_choice=..)", where)
+    ctx.check(okg, "%s:expand:%s.group" % (pid, short), "the group is not sg.sg(sgname=.., cell_choice=..) / sg.sg(sgno=.., cell_choice=..)", where)
     if not sgc:
         raise AnalysisError("%s.genhkl_all: space-group look-up not found" % short)
     g = sgc[0].targets[0].id
@@ -339,12 +339,12 @@ def analyse_expand(ctx, mod, short):
         okc = full == {"unit_cell": "unit_cell", "sysconditions": "%s.syscond" % g, "sintlmin": "sintlmin", "sintlmax": "sintlmax",
                        "crystal_system": "%s.crystal_system" % g, "Laue_class": "%s.Laue" % g, "cell_choice": "%s.cell_choice" % g,
                        "output_stl": "True"}
-    ctx.check(okc, "C05:expand:%s.base-call" % short,
+    ctx.check(okc, "%s:expand:%s.base-call" % (pid, short),
               "genhkl_base is not called with the looked-up group's syscond, crystal_system, Laue, cell_choice and output_stl=True", where)
     # rotations: first nuniq and their negatives
     b = {}
     r1 = core.find_stmt("M_R = NP.concatenate((%s.rot[:%s.nuniq], -%s.rot[:%s.nuniq]))" % (g, g, g, g), fn, b, npa)
-    ctx.check(len(r1) == 1, "C05:expand:%s.rotations" % short,
+    ctx.check(len(r1) == 1, "%s:expand:%s.rotations" % (pid, short),
               "the expansion set is not concatenate((rot[:nuniq], -rot[:nuniq])) of the looked-up group", where)
     Rn = r1[0][1]["M_R"] if r1 else None
     # for refl in H: for R in Rots: append(dot(refl[:3], R))
@@ -369,10 +369,10 @@ def analyse_expand(ctx, mod, short):
         acc = [x for x in outer.body if core.match_stmt("M_all = NP.concatenate((M_all, M_sub))", x, bs, npa)]
         ok_stl = len(st1) == 1 and len(cat) == 1 and len(acc) == 1
         ok_unique = len(un) == 1 and len(cat) == 1
-    ctx.check(ok_dot, "C05:expand:%s.right-action" % short,
+    ctx.check(ok_dot, "%s:expand:%s.right-action" % (pid, short),
               "family members are not dot(hkl_row[:3], R) for every R of the expansion set (hkl row on the left)", where)
-    ctx.check(ok_stl, "C05:expand:%s.stl" % short, "the family's sin(theta)/lambda (column 3 of the unique row) is not copied to each member", where)
-    ctx.check(ok_unique, "C05:expand:%s.dedupe" % short,
+    ctx.check(ok_stl, "%s:expand:%s.stl" % (pid, short), "the family's sin(theta)/lambda (column 3 of the unique row) is not copied to each member", where)
+    ctx.check(ok_unique, "%s:expand:%s.dedupe" % (pid, short),
               "duplicates within a family are not removed by selecting rows through unique(..., return_index=True)", where)
     if any(isinstance(n_, ast.Attribute) and n_.attr == "rand" for n_ in ast.walk(fn)):
         ctx.note("%s.genhkl_all draws from numpy's global RNG for its de-duplication projections (side effect on the global state)" % short)
